@@ -38,6 +38,8 @@ FP(op) ==
     [] op = "wrap-explicit"   -> [r |-> {"typesystem"}, w |-> {}, lock |-> {}]
     [] op = "proto-inferred"  -> [r |-> {}, w |-> {"infercache"}, lock |-> {"infercache"}]   \* infer.go inferMu
     [] op = "struct-lookup"   -> [r |-> {"node.bind", "typesystem"}, w |-> {}, lock |-> {}]
+    [] op = "ts-clone"        -> [r |-> {"typesystem"}, w |-> {}, lock |-> {}]       \* copying a type reads its source only
+    [] op = "ts-merge"        -> [r |-> {"typesystem"}, w |-> {}, lock |-> {}]       \* the target is private to the caller
 
 VARIABLES plan,     \* [1..NG -> Seq(op)]: what each goroutine will do (chosen at Init)
           pc,       \* [1..NG -> index of the operation in progress or next]
